@@ -97,7 +97,7 @@ PROPS = {
         rule="well-formed requests (with OPT, junk records in every section) damaged by: truncation at every kind of "
              "offset, appended junk (1-300 octets), each count +-1 / 0 / 65535, RDLENGTH edits, OPT/TSIG moved to "
              "answer/authority, duplicated OPT, pointer retargeting, inserts, deletes, flips; 5/6 of requests are damaged. "
-             "Judged when P finds a FORMERR-class problem (or a QUERY without question). distinct = (reason, response shape); a fifth of the requests get 0/1/2 OPT records at any position with arbitrary version / extended-RCODE octets and owners, so that duplicate-OPT FORMERR competes with BADVERS",
+             "Judged when P finds a FORMERR-class problem (or a QUERY without question). distinct = (reason, response shape); a fifth of the requests get 0/1/2 OPT records at any position with arbitrary version / extended-RCODE octets and owners, so that duplicate-OPT FORMERR competes with BADVERS; an eighth of the requests carry a record whose owner labels total 252-256 octets, ended by a root label or a pointer to the QNAME (the 255-octet name limit decides whether the record can be delimited)",
         assumptions=COMMON_ASSUMPTIONS + ["a TSIG TTL with the top bit set is not judged (RFC 2181 §8 reads it as zero)"],
         quick=plans(dict(build="dbg", nshards=16)),
         thorough=plans(dict(build="dbg", nshards=16), dict(build="rel", nshards=16), dict(build="asan", nshards=16, scale=0.2), dict(build="miri", nshards=16, timeout=3000)),
